@@ -55,14 +55,25 @@ BOUNDS = {
               "acceptance_rad": ACCEPT,
               "gaussian_s_A": "10, 30, 100, 300, 1000, 3000, 10000, 30000 (x seed factor) and sums of two neighbours",
               "impulse_ladder": "q_acc x (0.3 0.6 0.9 0.99 1.01 1.1 1.5 3), 2pi/lambda x (0.9 0.99 1.01 1.5)",
-              "masked_quadrature_xi": "first, middle, last"},
+              "masked_quadrature_xi": "first, middle, last",
+              "tof_wavelength_arrays": "increasing / decreasing / two-valued over 2..12 A and 5..6 A, n in (5, 20), "
+                                       "both grid kinds, all ranges and acceptances",
+              "signs": "linearity with a combination that is negative over part of q, apply(-f), differences of two "
+                       "Gaussians, negative scale through DirectModel and Gxi"},
     "thorough": {"n": [1, 2, 3, 5, 10, 20, 50, 77, 100, 150, 199, 200], "kinds": ["linear", "log"], "ranges_A": RANGES,
                  "wavelength_A": LAMBDAS, "acceptance_rad": ACCEPT,
                  "gaussian_s_A": "10, 30, 100, 300, 1000, 3000, 10000, 30000 (x seed factor) and sums of two neighbours",
                  "impulse_ladder": "q_acc x (0.3 0.6 0.9 0.99 1.01 1.1 1.5 3), 2pi/lambda x (0.9 0.99 1.01 1.5)",
-                 "masked_quadrature_xi": "first, quartiles, last"},
+                 "masked_quadrature_xi": "first, quartiles, last",
+                 "tof_wavelength_arrays": "increasing / decreasing / two-valued over 2..12 A and 5..6 A, n in (2, 5, 20, 50, "
+                                          "77), both grid kinds, all ranges and acceptances",
+                 "signs": "linearity with a combination that is negative over part of q, apply(-f), differences of two "
+                          "Gaussians, negative scale through DirectModel and Gxi"},
 }
 CASE_TIMEOUT = 900
+# time-of-flight data: one wavelength per spin-echo length.  (pattern, shortest, longest)
+TOF = [("increasing", 2.0, 12.0), ("decreasing", 2.0, 12.0), ("two-valued", 2.0, 12.0),
+       ("increasing", 5.0, 6.0), ("decreasing", 5.0, 6.0), ("two-valued", 5.0, 6.0)]
 LOG_SPACING = 1.0003
 REL_TOL = 2 * (LOG_SPACING - 1)
 ACC_LADDER = [0.3, 0.6, 0.9, 0.99, 1.01, 1.1, 1.5, 3.0]
@@ -149,6 +160,15 @@ def cases(ctx):
                     for acc in ACCEPT:
                         out.append({"kind": "transform", "n": n, "grid": kind, "range": rng, "lam": lam, "acc": acc,
                                     "s": svals, "nxi_quad": 3 if ctx.quick else 5})
+    # per-point wavelength arrays (time-of-flight): the acceptance cut is that of the LONGEST wavelength for every point
+    for n in ([5, 20] if ctx.quick else [2, 5, 20, 50, 77]):
+        for kind in ("linear", "log"):
+            for rng in RANGES:
+                for pat, l0, l1 in TOF:
+                    for acc in ACCEPT:
+                        out.append({"kind": "transform", "n": n, "grid": kind, "range": rng,
+                                    "lam": {"tof": pat, "shortest": l0, "longest": l1}, "acc": acc,
+                                    "s": svals, "nxi_quad": 3 if ctx.quick else 5})
     for lam in LAMBDAS:
         out.append({"kind": "direct", "lam": lam, "acc": math.pi / 2, "radius": 150.0 * (1.0 if ctx.seed == 0 else ctx.factor(1))})
     out.append({"kind": "gxi", "radius": 150.0 * (1.0 if ctx.seed == 0 else ctx.factor(1))})
@@ -169,9 +189,28 @@ def xi_grid(n, kind, rng):
     return np.geomspace(lo, hi, n)
 
 
+def wavelengths(lam, n):
+    """scalar wavelength, or the per-point array named by {"tof": pattern, "shortest": a, "longest": b}"""
+    if not isinstance(lam, dict):
+        return lam
+    a, b = lam["shortest"], lam["longest"]
+    if lam["tof"] == "increasing":
+        return np.linspace(a, b, n)
+    if lam["tof"] == "decreasing":
+        return np.linspace(b, a, n)
+    if lam["tof"] == "two-valued":
+        return np.where(np.arange(n) % 2 == 0, a, b).astype(float)
+    raise HarnessError("unknown wavelength pattern %r" % (lam,))
+
+
+def lam_name(lam):
+    return lam if not isinstance(lam, dict) else "tof-%s(%g..%g)" % (lam["tof"], lam["shortest"], lam["longest"])
+
+
 def make_transform(xi, lam, acc):
     from sasmodels.data import empty_sesans
     from sasmodels.direct_model import _make_sesans_transform
+    lam = lam if np.isscalar(lam) else np.array(lam, float)
     data = empty_sesans(np.array(xi, float), wavelength=lam, zacceptance=(acc, "radians"))
     with warnings.catch_warnings():
         warnings.simplefilter("ignore")
@@ -241,9 +280,17 @@ def judge_transform(r, J, T, xi, lam, acc, svals, nxi_quad, tag=""):
         r.ok(outcome="q_calc-bad")
         return {}
     r.ok(nt=True, outcome="q_calc-ok", branches=["q_calc"])
-    q_acc = 2 * math.pi / lam * math.sin(acc)
-    q_reach = 2 * math.pi / lam
     nxi = len(xi)
+    lamv = np.full(nxi, float(lam)) if np.isscalar(lam) else np.asarray(lam, float)
+    # documented rule ("for ToF: Q of min(R) and max(lam)"): one acceptance cut, that of the longest wavelength,
+    # for every point; a point cannot reach q beyond 2 pi / (its own wavelength)
+    q_acc = 2 * math.pi / float(np.max(lamv)) * math.sin(acc)
+    reach = 2 * math.pi / lamv
+    cutv = np.minimum(q_acc, reach)                       # per spin-echo length
+    q_reach = float(np.min(reach))
+    tof = bool(np.ptp(lamv) > 0)
+    if tof:
+        r.branch("tof")
     # quadrature scale: G0 of |I| from the oracle's own rectangle weights
     dq = np.gradient(q)
     g0 = lambda I: float(np.sum(dq * q * np.abs(I))) / (2 * math.pi)
@@ -264,21 +311,44 @@ def judge_transform(r, J, T, xi, lam, acc, svals, nxi_quad, tag=""):
         J.bad("linearity", "%sapply(%r f + %r g)[%d] = %r but %r apply(f) + %r apply(g) = %r"
               % (tag, a, b, k, lhs[k], a, b, rhs[k]))
     r.ok(nt=True, outcome="linear", trans=3, branches=["linearity"])
+    # a combination that is negative over part of the calculated range, and the plain negation
+    a2, b2 = 0.8, -1.5
+    comb = a2 * f + b2 * g
+    if np.any(comb < 0) and np.any(comb > 0):
+        lhs = _apply(T, comb)
+        rhs = a2 * _apply(T, f) + b2 * _apply(T, g)
+        tol = 1e-11 * (abs(a2) * g0(f) + abs(b2) * g0(g))
+        if lhs.shape != (nxi,) or np.any(~(np.abs(lhs - rhs) <= tol)):
+            k = int(np.nanargmax(np.abs(lhs - rhs))) if lhs.shape == (nxi,) else 0
+            J.bad("linearity", "%sI = %r f + %r g is negative for q < %.4g and positive beyond: apply(I)[%d] = %r but "
+                  "%r apply(f) + %r apply(g) = %r" % (tag, a2, b2, float(q[np.argmax(comb > 0)]), k,
+                                                      lhs[k] if lhs.shape == (nxi,) else lhs, a2, b2, rhs[k]), sign="mixed")
+        r.ok(nt=True, outcome="linear-mixed-sign", trans=1, branches=["linearity:mixed-sign"])
+    pos, neg = _apply(T, f), _apply(T, -f)
+    if neg.shape != pos.shape or np.any(~(np.abs(neg + pos) <= 1e-11 * g0(f))):
+        k = int(np.nanargmax(np.abs(neg + pos))) if neg.shape == pos.shape else 0
+        J.bad("linearity", "%sapply(-f)[%d] = %r but -apply(f) = %r" % (tag, k, neg[k] if neg.shape == pos.shape else neg, -pos[k]),
+              sign="negated")
+    r.ok(nt=bool(np.any(pos != 0)), outcome="linear-negated", trans=2, branches=["linearity:negated"])
 
     # ---- Gaussians
     results = {}
     intens = [("gauss(s=%r)" % s, [(1.0, s)]) for s in svals]
     intens += [("%r gauss(s=%r) + %r gauss(s=%r)" % (0.7, svals[i], 1.9, svals[i + 1]), [(0.7, svals[i]), (1.9, svals[i + 1])])
                for i in range(len(svals) - 1)]
+    # differences: narrow-in-q minus wide-in-q Gaussian, negative beyond the crossing
+    intens += [("%r gauss(s=%r) - %r gauss(s=%r)" % (1.0, svals[i + 1], 1.6, svals[i]), [(1.0, svals[i + 1]), (-1.6, svals[i])])
+               for i in range(len(svals) - 1)]
     pick = sorted(set(int(round(t * (nxi - 1))) for t in np.linspace(0, 1, nxi_quad)))
     for name, parts in intens:
+        negative = any(c < 0 for c, _ in parts)
         in_range = all(20 * q[0] < 1.0 / s < q[-1] / 20 for _, s in parts)
         if not in_range:
             r.ok(outcome="gauss-out-of-range", branches=["gauss:out-of-range"])
             continue
         Iq = sum(c * gauss(q, s) for c, s in parts)
         got = _apply(T, Iq)
-        unmasked = all(60.0 / s <= q_acc for _, s in parts)
+        unmasked = all(60.0 / s <= float(np.min(cutv)) for _, s in parts)
         if unmasked:
             ex = sum(c * exact_gauss(xi, s) for c, s in parts)
             tolv = sum(abs(c) * REL_TOL / (2 * math.pi * s * s) for c, s in parts)
@@ -289,7 +359,7 @@ def judge_transform(r, J, T, xi, lam, acc, svals, nxi_quad, tag=""):
                 k = int(np.argmax(err))
                 J.bad("gaussian", "%sI(q) = %s: apply(I)[xi=%r] = %.12g, exact (exp(-xi^2/2s^2)-1)/(2 pi s^2) = %.12g; "
                       "|error| %.3g exceeds %.3g (= %g of the maximum)" % (tag, name, xi[k], got[k], ex[k], err[k], tolv, REL_TOL))
-            r.ok(nt=nt, outcome="gauss-analytic", branches=["gauss:analytic"])
+            r.ok(nt=nt, outcome="gauss-analytic", branches=["gauss:analytic"] + (["gauss:difference"] if negative else []))
             r.extra["analytic_err_over_tol_%s" % _bucket(float(np.max(err) / tolv))] += 1
             if len(parts) == 1:
                 results[parts[0][1]] = float(np.max(err) / tolv)
@@ -299,22 +369,26 @@ def judge_transform(r, J, T, xi, lam, acc, svals, nxi_quad, tag=""):
             for k in pick:
                 ref = mag = 0.0
                 for c, s in parts:
-                    v, m = masked_reference(xi[k], s, q[0], min(q_acc, q_reach, q[-1], 9.0 / s))
+                    v, m = masked_reference(xi[k], s, q[0], min(cutv[k], q[-1], 9.0 / s))
                     ref += c * v
                     mag += abs(c) * m
                 # rectangle rule: REL_TOL of the integrated magnitude + one bin at the cut
-                qc = min(q_acc, q[-1])
+                qc = min(cutv[k], q[-1])
                 edge = sum(abs(c) * gauss(qc, s) for c, s in parts) * qc * qc * (LOG_SPACING - 1) * 2 / (2 * math.pi)
                 tolv = REL_TOL * mag + edge
                 if abs(got[k] - ref) > tolv:
-                    J.bad("masked-integral", "%sI(q) = %s, xi = %r: apply(I) = %.12g but (1/2pi) int_[q<=q_acc=%.6g] [J0(q xi)-1] I q dq "
-                          "= %.12g; |error| %.3g exceeds %.3g" % (tag, name, xi[k], got[k], q_acc, ref, abs(got[k] - ref), tolv))
+                    J.bad("masked-integral", "%sI(q) = %s, xi = %r (wavelength %g): apply(I) = %.12g but (1/2pi) int_[q<=%.6g] "
+                          "[J0(q xi)-1] I q dq = %.12g (cut = min(2pi/max(lambda) sin(theta), 2pi/lambda)); |error| %.3g exceeds %.3g"
+                          % (tag, name, xi[k], lamv[k], got[k], cutv[k], ref, abs(got[k] - ref), tolv))
                 nt = nt or abs(ref) > 0.01 * mag
                 r.extra["masked_err_over_tol_%s" % _bucket(abs(got[k] - ref) / tolv)] += 1
-            r.ok(nt=nt, outcome="gauss-masked", trans=len(pick), branches=["gauss:masked"])
+            r.ok(nt=nt, outcome="gauss-masked", trans=len(pick),
+                 branches=["gauss:masked"] + (["gauss:difference"] if negative else []))
 
-    # ---- unit impulses around the acceptance and the kinematic limit
-    probes = [("q_acc", t, t * q_acc) for t in ACC_LADDER] + [("2pi/lambda", t, t * q_reach) for t in REACH_LADDER]
+    # ---- unit impulses around the acceptance and the kinematic limit(s); judged per spin-echo length
+    probes = [("q_acc", t, t * q_acc) for t in ACC_LADDER] + [("2pi/max(lambda)", t, t * q_reach) for t in REACH_LADDER]
+    if tof:
+        probes += [("2pi/min(lambda)", t, t * float(np.max(reach))) for t in REACH_LADDER]
     seen = set()
     for what, t, qp in probes:
         if not (q[1] < qp < q[-2]):
@@ -327,9 +401,9 @@ def judge_transform(r, J, T, xi, lam, acc, svals, nxi_quad, tag=""):
             continue
         seen.add(j)
         qj = q[j]
-        accepted = qj <= min(q_acc, q_reach) * (1 - 1e-6)
-        rejected = qj >= min(q_acc, q_reach) * (1 + 1e-6)
-        if not (accepted or rejected):
+        accepted = qj <= cutv * (1 - 1e-6)               # per spin-echo length
+        rejected = qj >= cutv * (1 + 1e-6)
+        if not np.any(accepted | rejected):
             continue
         e = np.zeros(len(q))
         e[j] = 1.0
@@ -339,41 +413,53 @@ def judge_transform(r, J, T, xi, lam, acc, svals, nxi_quad, tag=""):
         jz = j0(qj * xi)
         full_lo, full_hi = w_lo * (jz - 1), w_hi * (jz - 1)      # both <= 0
         slack = 1e-9 * w_hi
-        is_full = bool(np.all((col >= full_hi - slack) & (col <= full_lo + slack)))
-        is_zero = bool(np.all(np.abs(col) <= slack))
-        is_g0_only = bool(np.all((col >= -w_hi - slack) & (col <= -w_lo + slack)))
-        where = ("q_calc[%d] = %.8g = %.4g x %s (q_acc = (2pi/%g) sin(%g) = %.8g, 2pi/lambda = %.8g)"
-                 % (j, qj, qj / (q_acc if what == "q_acc" else q_reach), what, lam, acc, q_acc, q_reach))
-        distinct = bool(np.any(np.abs(jz) > 0.05))        # J0 term distinguishable from the -1 term
-        if accepted:
-            if not is_full:
-                if (is_g0_only or is_zero) and distinct:
-                    J.bad("mask-cutoff", "%simpulse at %s lies inside the acceptance, but its J0 term is masked: apply(e_j) = %s, "
-                          "expected w (J0(q xi) - 1) = %s" % (tag, where, col[:3], full_lo[:3]), side="inside-masked")
-                else:
-                    J.bad("impulse", "%simpulse at %s: apply(e_j) = %s is not w (J0(q xi) - 1) = %s with w in [%.4g, %.4g]"
-                          % (tag, where, col[:3], full_lo[:3], w_lo, w_hi))
+        is_full = (col >= full_hi - slack) & (col <= full_lo + slack)
+        is_zero = np.abs(col) <= slack
+        is_g0_only = (col >= -w_hi - slack) & (col <= -w_lo + slack)
+        where = ("q_calc[%d] = %.8g = %.4g x %s (q_acc = (2pi/%g) sin(%g) = %.8g, wavelength %s)"
+                 % (j, qj, t, what, float(np.max(lamv)), acc, q_acc, lam_name(lam) if tof else lamv[0]))
+        distinct = np.abs(jz) > 0.05                      # J0 term distinguishable from the -1 term
+        bad_in = accepted & ~is_full
+        bad_out = rejected & ~is_zero
+        if np.any(bad_in):
+            m = bad_in & (is_g0_only | is_zero)
+            if np.any(m & distinct) and np.all(m[bad_in]):
+                k = int(np.argmax(m & distinct))
+                J.bad("mask-cutoff", "%simpulse at %s lies inside the acceptance of xi[%d]=%r (wavelength %g, cut %.8g), but its J0 "
+                      "term is masked: apply(e_j)[%d] = %r, expected w (J0(q xi) - 1) = %r"
+                      % (tag, where, k, xi[k], lamv[k], cutv[k], k, col[k], full_lo[k]), side="inside-masked")
+            else:
+                k = int(np.argmax(bad_in))
+                J.bad("impulse", "%simpulse at %s: apply(e_j)[%d] = %r is not w (J0(q xi) - 1) = %r with w in [%.4g, %.4g]"
+                      % (tag, where, k, col[k], full_lo[k], w_lo, w_hi))
+        if np.any(accepted):
             r.ok(nt=True, outcome="impulse-inside", branches=["impulse:inside"])
-        else:
-            if not is_zero:
-                if is_full and distinct:
-                    J.bad("mask-cutoff", "%simpulse at %s lies outside the acceptance, but is not masked: apply(e_j) = %s"
-                          % (tag, where, col[:3]), side="outside-unmasked")
-                elif is_g0_only:
-                    J.bad("mask-G0", "%simpulse at %s lies outside the acceptance: its J0 term is masked but its G(0) term is not: "
-                          "apply(e_j) = %s for every xi, expected 0 (the value for xi -> 0 must vanish)" % (tag, where, col[:3]))
-                else:
-                    J.bad("impulse", "%simpulse at %s: apply(e_j) = %s, expected 0" % (tag, where, col[:3]))
+        if np.any(bad_out):
+            if np.any(bad_out & is_full & distinct):
+                k = int(np.argmax(bad_out & is_full & distinct))
+                J.bad("mask-cutoff", "%simpulse at %s lies outside the acceptance of xi[%d]=%r (wavelength %g, cut %.8g), but is not "
+                      "masked: apply(e_j)[%d] = %r" % (tag, where, k, xi[k], lamv[k], cutv[k], k, col[k]), side="outside-unmasked")
+            elif np.all(is_g0_only[bad_out]):
+                k = int(np.argmax(bad_out))
+                J.bad("mask-G0", "%simpulse at %s lies outside the acceptance of xi[%d]=%r: its J0 term is masked but its G(0) term is "
+                      "not: apply(e_j)[%d] = %r, expected 0 (the value for xi -> 0 must vanish)" % (tag, where, k, xi[k], k, col[k]))
+            else:
+                k = int(np.argmax(bad_out))
+                J.bad("impulse", "%simpulse at %s: apply(e_j)[%d] = %r, expected 0" % (tag, where, k, col[k]))
+        if np.any(rejected):
             r.ok(nt=True, outcome="impulse-outside", branches=["impulse:outside"])
+        if tof and np.any(accepted) and np.any(rejected):
+            r.branch("impulse:tof-split")                # accepted for some spin-echo lengths, rejected for others
     return results
 
 
 def run_transform(case, ctx, r):
     xi = xi_grid(case["n"], case["grid"], case["range"])
-    lam, acc = case["lam"], case["acc"]
-    fk = {"wavelength": lam, "acceptance": round(acc, 4)}
-    desc = ("_make_sesans_transform(empty_sesans(xi=%s(%g..%g A, n=%d), wavelength=%g, zacceptance=(%.6g, 'radians')))"
-            % (case["grid"], xi[0], xi[-1], len(xi), lam, acc))
+    acc = case["acc"]
+    lam = wavelengths(case["lam"], len(xi))
+    fk = {"wavelength": lam_name(case["lam"]), "acceptance": round(acc, 4)}
+    desc = ("_make_sesans_transform(empty_sesans(xi=%s(%g..%g A, n=%d), wavelength=%s, zacceptance=(%.6g, 'radians')))"
+            % (case["grid"], xi[0], xi[-1], len(xi), lam_name(case["lam"]) if isinstance(case["lam"], dict) else "%g" % lam, acc))
     J = Judge(r, fk, desc)
     T = make_transform(xi, lam, acc)
     res = judge_transform(r, J, T, xi, lam, acc, case["s"], case["nxi_quad"])
@@ -384,7 +470,7 @@ def run_transform(case, ctx, r):
             # a one-point set calculates q in [0.01, 10] x 2pi/xi: Gaussians with 20 q_min < 1/s < q_max/20
             cand = [k for k in range(len(xi)) if 1.3 < xi[k] / s < 3.0]
             for k in (cand[:1] + cand[-1:] if len(cand) > 1 else cand):
-                T1 = make_transform(xi[k:k + 1], lam, acc)
+                T1 = make_transform(xi[k:k + 1], lam if np.isscalar(lam) else lam[k:k + 1], acc)
                 q1 = np.asarray(T1.q_calc, float)
                 if not (20 * q1[0] < 1.0 / s < q1[-1] / 20):
                     continue
@@ -422,6 +508,7 @@ def run_direct(case, ctx, r):
         base = np.asarray(calc(scale=1.0, background=0.0, **pars), float)
         with_bg = np.asarray(calc(scale=1.0, background=7.5, **pars), float)
         scaled = np.asarray(calc(scale=0.37, background=0.0, **pars), float)
+        negated = np.asarray(calc(scale=-1.0, background=0.0, **pars), float)
         T = calc.resolution
         q = np.asarray(T.q_calc, float)
         kernel = model.make_kernel([q])
@@ -435,6 +522,10 @@ def run_direct(case, ctx, r):
     if np.any(np.abs(scaled - 0.37 * base) > 1e-12 * np.abs(base).max()):
         k = int(np.argmax(np.abs(scaled - 0.37 * base)))
         J.bad("scale", "scale=0.37 gives %r, 0.37 x (scale=1) = %r at xi=%r" % (scaled[k], 0.37 * base[k], xi[k]))
+    if negated.shape != base.shape or np.any(~(np.abs(negated + base) <= 1e-12 * np.abs(base).max())):
+        k = int(np.nanargmax(np.abs(negated + base))) if negated.shape == base.shape else 0
+        J.bad("scale", "scale=-1 gives %r, -(scale=1) = %r at xi=%r" % (negated[k], -base[k], xi[k]), sign="negative")
+    r.branch("direct:negative-scale")
     if not np.array_equal(base, ref):
         k = int(np.argmax(np.abs(base - ref)))
         J.bad("apply", "DirectModel value %r != resolution.apply(I(q_calc)) = %r at xi=%r" % (base[k], ref[k], xi[k]))
@@ -452,13 +543,16 @@ def run_gxi(case, ctx, r):
         a = np.asarray(Gxi("sphere", xi, radius=case["radius"], background=0.0), float)
         b = np.asarray(Gxi("sphere", xi, radius=case["radius"], background=3.0), float)
         c = np.asarray(Gxi("sphere", xi, radius=case["radius"], background=0.0, scale=2.0), float)
+        d = np.asarray(Gxi("sphere", xi, radius=case["radius"], background=0.0, scale=-1.0), float)
     if not np.all(np.isfinite(a)) or np.any(a >= 0):
         J.bad("finite", "G(xi)-G(0) = %s is not finite and negative" % a)
     if not np.array_equal(a, b):
         J.bad("background", "background=3 changes Gxi: %s -> %s" % (a, b))
     if np.any(np.abs(c - 2 * a) > 1e-12 * np.abs(a).max()):
         J.bad("scale", "scale=2 gives %s, 2 x (scale=1) = %s" % (c, 2 * a))
-    r.ok(nt=True, n=3, trans=3, outcome="gxi", branches=["gxi"])
+    if d.shape != a.shape or np.any(~(np.abs(d + a) <= 1e-12 * np.abs(a).max())):
+        J.bad("scale", "scale=-1 gives %s, -(scale=1) = %s" % (d, -a), sign="negative")
+    r.ok(nt=True, n=4, trans=4, outcome="gxi", branches=["gxi", "gxi:negative-scale"])
 
 
 def run_case(case, ctx):
@@ -489,5 +583,13 @@ def finish(ctx, report):
     report.require("direct", 3, "DirectModel path")
     report.require("gxi", 1, "Gxi path")
     report.require("history", 100, "sequences of transforms in one process")
+    report.require("tof", 100, "transforms with a per-point wavelength array")
+    # (no guard on "impulse:tof-split": with one cut at 2pi/max(lambda) sin(theta) <= 2pi/lambda_i the per-point
+    #  reachability limit never lies below the acceptance cut, so every impulse is accepted or rejected for all points)
+    report.require("linearity:mixed-sign", 100, "linearity with an intensity that is negative over part of the q range")
+    report.require("linearity:negated", 100, "apply(-f) = -apply(f)")
+    report.require("gauss:difference", 100, "differences of two Gaussians (negative intensity beyond the crossing)")
+    report.require("direct:negative-scale", 3, "negative scale through DirectModel")
+    report.require("gxi:negative-scale", 1, "negative scale through Gxi")
     for n in BOUNDS[ctx.tier]["n"]:
         report.require("n=%d" % n, 9, "every grid size explored")
